@@ -112,7 +112,7 @@ class SimRaw(io.RawIOBase):
             try:
                 if not self._dead():
                     self.fs.open_handles -= 1
-                    self.fs.event("close", self.path)
+                    self.fs.closes += 1
             finally:
                 try:
                     self.f.close()
@@ -137,6 +137,7 @@ class SimFS(object):
         self.errors_fired = 0
         self.crashed = False
         self.saw_eof = False
+        self.closes = 0
         self.outside = 0
         self.known_names = None      # basenames the check itself uses (None = log every name as it is)
         self._anon = {}
